@@ -277,6 +277,9 @@ func (g *Gen) Next() (Op, string) {
 		case 5:
 			return Op{Kind: "AR", Cand: g.remoteCand()}, "after_close"
 		case 6:
+			if g.pick(2) == 0 {
+				return Op{Kind: "RN", A: 1, B: 101, V: 7}, "after_close"
+			}
 			return Op{Kind: "ST", Ctl: true, A: 5, B: 5}, "after_close"
 		default:
 			return Op{Kind: "TK"}, "after_close"
